@@ -298,3 +298,82 @@ Qed.
 
 Lemma rt_scalar s d : is_scalar s = true -> rt s d = d.
 Proof. destruct s; try discriminate; reflexivity. Qed.
+
+(* ------------------------------------------------------------------ *)
+(* C05: a second round trip changes nothing                             *)
+(* ------------------------------------------------------------------ *)
+Fixpoint names_distinct (s : schema) : bool :=
+  match s with
+  | SArr it _ _ _ => names_distinct it
+  | SMap v => names_distinct v
+  | SObj ps => nodup_str (map (fun p => fst (fst p)) ps) &&
+               (fix all (l : list (str * bool * schema)) : bool := match l with [] => true | p :: r => names_distinct (snd p) && all r end) ps
+  | _ => true
+  end.
+
+Lemma names_distinct_obj ps : names_distinct (SObj ps) = true ->
+  NoDup (map (fun p => fst (fst p)) ps) /\ forall p, In p ps -> names_distinct (snd p) = true.
+Proof.
+  cbn [names_distinct]. intros H. apply andb_prop in H as [H1 H2]. split; [apply nodup_str_NoDup; exact H1|].
+  induction ps as [|q r IH]; intros p Hin; [contradiction|]. apply andb_prop in H2 as [A B].
+  destruct Hin as [<-|Hin]; [exact A|]. apply IH; [|exact B | exact Hin].
+  cbn [map nodup_str] in H1. apply andb_prop in H1 as [_ H1]. exact H1.
+Qed.
+
+Lemma rt_not_null s d : d <> JNull -> rt s d <> JNull.
+Proof. destruct s, d; cbn; congruence. Qed.
+
+Lemma is_zero_of_rt s d : is_zero_of s (rt s d) = is_zero_of s d.
+Proof. destruct s; try reflexivity; destruct d; reflexivity. Qed.
+
+Lemma is_empty_obj_rt_map v d : is_empty_obj (rt (SMap v) d) = is_empty_obj d.
+Proof. destruct d as [| | | | |l]; try reflexivity. destruct l; reflexivity. Qed.
+
+Lemma member_twice l ps p :
+  NoDup (map (fun q => fst (fst q)) ps) -> In p ps -> (forall d, rt (snd p) (rt (snd p) d) = rt (snd p) d) ->
+  member (flat_map (member l) ps) p = member l p.
+Proof.
+  destruct p as [[name req] ps']. cbn [snd]. intros ND Hin IH.
+  unfold member at 1. rewrite (assoc_flat_map_member name req ps' ps l ND Hin).
+  unfold member. destruct (assoc name l) as [v|] eqn:A.
+  - destruct (match v with JNull => true | _ => false end) eqn:NV.
+    + destruct v; try discriminate. destruct (req || is_arr ps'); reflexivity.
+    + assert (v <> JNull) as NN by (destruct v; congruence).
+      assert ((match v with
+               | JNull => if req || is_arr ps' then [(name, JNull)] else []
+               | _ => if negb req && (negb (nullable ps' req) && is_zero_of ps' v || is_map ps' && is_empty_obj v) then [] else [(name, rt ps' v)]
+               end) = (if negb req && (negb (nullable ps' req) && is_zero_of ps' v || is_map ps' && is_empty_obj v) then [] else [(name, rt ps' v)])) as EV
+        by (destruct v; congruence).
+      rewrite EV. clear EV.
+      destruct (negb req && (negb (nullable ps' req) && is_zero_of ps' v || is_map ps' && is_empty_obj v)) eqn:C.
+      * (* omitted: the field is optional and not an array *)
+        apply andb_prop in C as [NR C]. apply Bool.negb_true_iff in NR. subst req.
+        assert (is_arr ps' = false) as NA.
+        { destruct ps'; try reflexivity. cbn in C. discriminate. }
+        rewrite NA. reflexivity.
+      * cbn [snd]. pose proof (rt_not_null ps' v NN) as RN.
+        assert ((match rt ps' v with
+                 | JNull => if req || is_arr ps' then [(name, JNull)] else []
+                 | _ => if negb req && (negb (nullable ps' req) && is_zero_of ps' (rt ps' v) || is_map ps' && is_empty_obj (rt ps' v)) then [] else [(name, rt ps' (rt ps' v))]
+                 end) = (if negb req && (negb (nullable ps' req) && is_zero_of ps' (rt ps' v) || is_map ps' && is_empty_obj (rt ps' v)) then [] else [(name, rt ps' (rt ps' v))])) as EV
+          by (destruct (rt ps' v); congruence).
+        rewrite EV, is_zero_of_rt, IH.
+        assert (is_map ps' && is_empty_obj (rt ps' v) = is_map ps' && is_empty_obj v) as EM.
+        { destruct ps'; try reflexivity. cbn [is_map andb]. apply is_empty_obj_rt_map. }
+        rewrite EM, C. reflexivity.
+  - destruct (req || is_arr ps'); reflexivity.
+Qed.
+
+Theorem rt_idempotent : forall s d, names_distinct s = true -> rt s (rt s d) = rt s d.
+Proof.
+  induction s as [lo hi en|lo xl hi xh m en| |it lo hi uq IH|v IH|ps IH] using schema_ind'; intros d W; try (destruct d; reflexivity).
+  - destruct d as [| | | |l|]; try reflexivity. cbn [rt]. f_equal. rewrite map_map. apply map_ext. intros x. apply IH. exact W.
+  - destruct d as [| | | | |l]; try reflexivity. cbn [rt]. f_equal. rewrite map_map. apply map_ext. intros [k x]. cbn [fst snd]. f_equal. apply IH. exact W.
+  - destruct d as [| | | | |l]; try reflexivity. rewrite !rt_obj. f_equal.
+    destruct (names_distinct_obj ps W) as [ND WP].
+    assert (forall r, (forall p, In p r -> In p ps) -> flat_map (member (flat_map (member l) ps)) r = flat_map (member l) r) as FM.
+    { induction r as [|q r IHr]; intros Hin; [reflexivity|]. cbn [flat_map]. rewrite IHr by (intros p Hp; apply Hin; right; exact Hp).
+      f_equal. apply member_twice; [exact ND | apply Hin; left; reflexivity|].
+      intros d0. rewrite Forall_forall in IH. apply (IH q (Hin q (or_introl eq_refl))). apply WP. apply Hin. left. reflexivity. }
+    apply FM. auto.
+Qed.
